@@ -43,7 +43,9 @@ type vNullTransport struct {
 func vNewNullTransport(ip string, port int) *vNullTransport {
 	return &vNullTransport{ip: net.ParseIP(ip).To4(), port: port, packetCh: make(chan *Packet), streamCh: make(chan net.Conn)}
 }
-func (t *vNullTransport) FinalAdvertiseAddr(string, int) (net.IP, int, error) { return t.ip, t.port, nil }
+func (t *vNullTransport) FinalAdvertiseAddr(string, int) (net.IP, int, error) {
+	return t.ip, t.port, nil
+}
 func (t *vNullTransport) WriteTo(b []byte, addr string) (time.Time, error) {
 	t.writes++
 	return time.Now(), nil
@@ -92,14 +94,14 @@ type vEdge struct {
 // Concretisation tables (abstract label -> concrete value); several variants
 
 type vConc struct {
-	name    string
-	addr    map[string][]byte
-	meta    map[string][]byte
-	incMap  func(int64) uint32
-	exact   bool
-	tick    time.Duration
-	allow   []string
-	self    string
+	name   string
+	addr   map[string][]byte
+	meta   map[string][]byte
+	incMap func(int64) uint32
+	exact  bool
+	tick   time.Duration
+	allow  []string
+	self   string
 }
 
 var vTick = time.Hour
@@ -113,8 +115,8 @@ func vConcretisation(variant int) *vConc {
 			"A2": net.ParseIP("10.0.0.2").To4(),
 			"X1": net.ParseIP("192.168.1.1").To4(),
 			"F":  net.ParseIP("10.0.0.50").To4(),
-			"E0": {},             // no address at all
-			"M3": {10, 0, 0},     // malformed length
+			"E0": {},         // no address at all
+			"M3": {10, 0, 0}, // malformed length
 		},
 		meta: map[string][]byte{
 			"m0": []byte("meta-zero"),
@@ -202,7 +204,11 @@ func vNewInst(t *testing.T, s *vSink, c *vConc, cfg vCfg) *vInst {
 	conf.Conflict = &vConflictDelegate{s: s, m: &in.mp}
 	veto := ""
 	if cfg.AliveDelegate {
-		veto = string(c.meta["mv"])
+		vm := cfg.VetoMeta
+		if vm == "" {
+			vm = "mv"
+		}
+		veto = string(c.meta[vm])
 		conf.Alive = &vAliveDelegate{veto: veto}
 	}
 	if cfg.AllowOn {
